@@ -65,7 +65,7 @@ const c07Modern = "2026-07-28"
 // c07EmptyOptions stands for a non-nil ClientSessionOptions whose ProtocolVersion is empty: the default.
 const c07EmptyOptions = "<empty options>"
 
-var c07HTTPDiscover = []string{"404-plain", "400-plain", "405-plain", "404-json", "400-json", "200-json-notfound", "404-empty", "401-plain-then-404"}
+var c07HTTPDiscover = []string{"404-plain", "400-plain", "405-plain", "404-json", "400-json", "200-json-notfound", "404-empty", "401-plain-then-404", "200-html", "202-empty", "501-plain"}
 
 type c07Spec struct {
 	Part      string   `json:"part"`
@@ -743,6 +743,12 @@ func (s *c07HTTPServer) RoundTrip(req *http.Request) (*http.Response, error) {
 			return s.resp(req, 400, "text/plain", "Bad Request: unknown method", nil), nil
 		case "405-plain":
 			return s.resp(req, 405, "text/plain", "method not allowed", nil), nil
+		case "200-html":
+			return s.resp(req, 200, "text/html", "<html>welcome</html>", nil), nil // a gateway's landing page
+		case "202-empty":
+			return s.resp(req, 202, "", "", nil), nil // accepted, never answered
+		case "501-plain":
+			return s.resp(req, 501, "text/plain", "not implemented", nil), nil
 		case "404-json":
 			return s.resp(req, 404, "application/json", fmt.Sprintf(`{"jsonrpc":"2.0","id":%s,"error":{"code":-32601,"message":"method not found"}}`, m.ID), nil), nil
 		case "400-json":
